@@ -45,9 +45,15 @@ def tomo_case(draw, n=None):
     if draw(st.integers(0, 2)) == 0:
         # heralds declared directly on the base circuit (outside the qubit modes)
         prog = dict(prog)
-        prog["pad"] = draw(st.sampled_from([[1, 0], [0, 1], [1, 1], [2, 0]]))
+        if draw(st.booleans()):
+            prog["pad"] = draw(st.sampled_from([[1, 0], [0, 1], [1, 1], [2, 0]]))
+        else:
+            # ... at arbitrary positions, also between the two rails of a qubit
+            k = draw(st.integers(1, 2))
+            prog["hpos"] = sorted(draw(st.lists(st.integers(0, 2 * n + k - 1), unique=True, min_size=k, max_size=k)))
     return {"prog": prog, "edit": draw(st.booleans()), "edit_seed": draw(st.integers(0, 999)),
-            "ulp_seed": draw(st.one_of(st.none(), st.integers(0, 10 ** 6)))}
+            "ulp_seed": draw(st.one_of(st.none(), st.integers(0, 10 ** 6))),
+            "scale_seed": draw(st.one_of(st.none(), st.integers(0, 10 ** 6)))}
 
 
 def run_tomo(case):
@@ -61,8 +67,8 @@ def run_tomo(case):
 
     def experiment(circuits):
         received.append(list(circuits))
-        us = case.get("ulp_seed")
-        return [qubits.exact_counts(c, n, [1, 0] * n, qubits.ulp_choice(us, i))
+        us, ss = case.get("ulp_seed"), case.get("scale_seed")
+        return [qubits.exact_counts(c, n, [1, 0] * n, qubits.ulp_choice(us, i), scale=qubits.scale_choice(ss, i))
                 for i, c in enumerate(circuits)]
 
     tomo = call("StateTomography()", tomography.StateTomography, n, base, experiment)
@@ -82,11 +88,10 @@ def run_tomo(case):
         used = set()
         settings = list(itertools.product("XYZ", repeat=n))
         expected = {}
-        kf = prog.get("pad", [0, 0])[0]
         for stg in settings:
             e = base.copy()
             for q, m in enumerate(stg):
-                e.add(lw.Unitary(MEAS[m]), kf + 2 * q)      # basis change on the modes of qubit q
+                qubits.add_on_qubit(e, prog, q, lw.Unitary(MEAS[m]))      # basis change on the rails of qubit q
             expected[stg] = e.U_full
         for c in circs:
             if c.heralds != base.heralds or c.input_modes != 2 * n:
@@ -128,7 +133,7 @@ def run_tomo(case):
     if case["edit"]:
         # structural in-place edit of the base circuit, then process() again on the same object
         W = qubits.make_unitary("haar", 2, case["edit_seed"])
-        base.add(lw.Unitary(W), prog.get("pad", [0, 0])[0])
+        qubits.add_on_qubit(base, prog, 0, lw.Unitary(W))
         snap_now[0] = snapshot(base)
         V2 = qubits.on_qubit(n, 0, W) @ V
         one_round(V2, "process() after editing the base circuit")
@@ -147,8 +152,12 @@ def run_tomo(case):
     labels.add(f"n={n}")
     if qubits.herald_photons(prog):
         labels.add("heralded-gate")
-    if "pad" in prog:
+    if "pad" in prog or "hpos" in prog:
         labels.add("heralds-declared-on-base-circuit")
+    if "hpos" in prog and any(m % 2 == 1 and m < 2 * n + len(prog["hpos"]) for m in prog["hpos"]):
+        labels.add("herald-mode-inside-the-qubit-register")
+    if case.get("scale_seed") is not None:
+        labels.add("totals-differ-between-circuits")
     if case.get("ulp_seed") is not None:
         labels.add("last-place-rounding-varied")
     return {"nontrivial": nonreal or entangled, "labels": sorted(labels)}
